@@ -662,6 +662,119 @@ example :
     ((rollback (run s0 calmOps) 3).1.tables 0).map (select · (.ge 0 0)) = some [(0, [1, 1]), (1, [2, 9]), (2, [8, 1]), (3, [7, 7])] := by
   decide
 
+/-! ## the undo of an update: remove the new index entry, THEN add the old one -/
+
+/-- `undo_update_keeps_index_exact`.  Take ANY table whose indexes are exact, any live row `i` and the
+    undo entry `tx_update` recorded for it: `old` = the row's values before the statement, the
+    change list `mkChg` = one `(column, old value, new value)` for EVERY indexed column named in the
+    SET list `upd` — no assumption that the new value differs from the old one, so an UPDATE that
+    writes an indexed column back with the value the row already holds (`old value = new value`) is
+    included, as is a SET list mixing changed and unchanged columns.  Then `apply_undo_entry`
+    (remove new, then add old — `undoChange`)
+      * reports no error and puts the row back to `old`,
+      * leaves both indexes exact, so every index-served `select` equals the full scan,
+      * and the row's slot in every hash / b-tree index holds exactly its old value (in particular
+        the row is still there when old = new).
+    `rollback_restores` uses this for every entry of a log; the swapped order fails it
+    (`undo_add_before_remove_loses_entry_witness`). -/
+theorem undo_update_keeps_index_exact (T : Table) (t i : Nat) (r : Row) (old : List Int) (upd : List (Nat × Int))
+    (h : IdxExact T) (hr : T.rows[i]? = some r) (ha : r.alive = true) (hl : old.length = T.ncols)
+    (hupd : ∀ p ∈ upd, p.1 < T.ncols) (hvals : r.vals = applyUpd upd old) :
+    let u := Undo.updated t i old (mkChg (T.hashOn ++ T.btreeOn) upd old)
+    let T' := (applyUndoT T u).1
+    (applyUndoT T u).2 = 0 ∧ T'.rows[i]? = some { r with vals := old } ∧ IdxExact T' ∧
+    (∀ cond, select T' cond = scanAnswer T' cond) ∧
+    (∀ c ∈ T.hashOn, ∀ v, (c, v, i) ∈ T'.hashE ↔ v = val old c) ∧
+    (∀ c ∈ T.btreeOn, ∀ v, (c, v, i) ∈ T'.btreeE ↔ v = val old c) := by
+  intro u T'
+  have hp : undoPre T.ncols (T.hashOn ++ T.btreeOn) u r := ⟨ha, hl, upd, hupd, rfl, hvals⟩
+  obtain ⟨hex, herr⟩ := idxExact_applyUndoT T u r h hr hp
+  have hrr : restoreRow T i old = some (T.rows.set i { r with vals := old }) := by
+    unfold restoreRow
+    rw [hr]
+    exact if_pos ⟨ha, hl⟩
+  have hrow : T'.rows[i]? = some { r with vals := old } := by
+    show ((restoreRow T i old).getD T.rows)[i]? = _
+    rw [hrr]
+    exact set_self hr
+  have hslot : ∀ (on : List Nat) (es : List Entry), ExactOn T'.rows on es → ∀ c ∈ on, ∀ v,
+      (c, v, i) ∈ es ↔ v = val old c := by
+    intro on es hE c hc v
+    rw [hE.2 c i v, want_of_row hrow, if_pos hc, if_pos (show ({ r with vals := old } : Row).alive = true from ha)]
+    constructor
+    · intro e; cases e; rfl
+    · intro e; rw [e]
+  exact ⟨herr, hrow, hex, fun cond => select_eq_scan T' hex cond,
+    hslot T.hashOn T'.hashE hex.1, hslot T.btreeOn T'.btreeE hex.2⟩
+
+set_option maxRecDepth 8000 in
+/-- non-vacuity: `sameValueOps` ends in the state the seeded regression needs — a reachable (calm)
+    state, hence exact indexes; row 1 is alive and holds `applyUpd upd old` where the SET list
+    writes the hash-indexed column 0 and the b-tree-indexed column 1 back with their OLD values
+    (recorded changes `(0, 1, 1)` and `(1, 5, 5)`: old value = new value) and changes column 2. -/
+example : ∃ T r, (run s0 sameValueOps).tables 0 = some T ∧ IdxExact T ∧ T.rows[1]? = some r ∧ r.alive = true ∧
+    [1, 5, 200].length = T.ncols ∧ (∀ p ∈ sameValueUpd, p.1 < T.ncols) ∧ r.vals = applyUpd sameValueUpd [1, 5, 200] ∧
+    mkChg (T.hashOn ++ T.btreeOn) sameValueUpd [1, 5, 200] = [(0, 1, 1), (1, 5, 5)] ∧
+    ((run s0 sameValueOps).txs 3).map (·.undo) = some [.updated 0 1 [1, 5, 200] [(0, 1, 1), (1, 5, 5)]] := by
+  have hinv : Inv (run s0 sameValueOps) := inv_run (inv_init 30000 60000) sameValueOps (by decide)
+  have hfacts : ((run s0 sameValueOps).tables 0).map (fun T =>
+      decide (T.rows[1]? = some ⟨true, [1, 5, 150]⟩ ∧ T.ncols = 3 ∧ T.hashOn = [0] ∧ T.btreeOn = [1])) = some true := by decide
+  have hundo : ((run s0 sameValueOps).txs 3).map (·.undo) = some [.updated 0 1 [1, 5, 200] [(0, 1, 1), (1, 5, 5)]] := by decide
+  cases hT : (run s0 sameValueOps).tables 0 with
+  | none => rw [hT] at hfacts; cases hfacts
+  | some T =>
+    rw [hT] at hfacts
+    simp only [Option.map_some, Option.some.injEq, decide_eq_true_eq] at hfacts
+    obtain ⟨h1, h2, h3, h4⟩ := hfacts
+    refine ⟨T, ⟨true, [1, 5, 150]⟩, rfl, hinv.idx 0 T hT, h1, rfl, by rw [h2]; rfl, ?_, by decide, ?_, hundo⟩
+    · rw [h2]; decide
+    · rw [h3, h4]; decide
+
+set_option maxRecDepth 8000 in
+/-- the conclusion on that state, computed: after the rollback row 1 is `[1, 5, 200]` again and is
+    found through the hash index on column 0 and the b-tree index on column 1 exactly as by the scan -/
+example :
+    ((rollback (run s0 sameValueOps) 3).1.tables 0).map (fun T =>
+      [select T (.eq 0 1), select T (.ge 1 4), select T (.le 1 5), scanAnswer T (.eq 0 1)]) =
+      some [[(0, [1, 3, 100]), (1, [1, 5, 200])], [(1, [1, 5, 200]), (2, [2, 7, 300])],
+            [(0, [1, 3, 100]), (1, [1, 5, 200])], [(0, [1, 3, 100]), (1, [1, 5, 200])]] := by decide
+
+set_option maxRecDepth 8000 in
+/-- WITNESS that the order matters (`runAddBeforeRemove` = the model with the two index steps of the
+    update undo swapped to add-old-then-remove-new; NOT the code): on the same-value script every
+    statement still answers `Ok` and the full scan shows all three rows restored, but row 1 has lost
+    its only entry in the hash index (Eq lookup) and in the b-tree index (range lookups) — the
+    rolled-back transaction left a visible difference.  The model of the code answers every one of
+    these queries like the scan.  Controls: with the swapped order a value-CHANGING update, a→b
+    followed by b→a in one transaction, and a same-value update that is COMMITTED are all still
+    answered correctly — only same-value update + rollback tells the two orders apart. -/
+theorem undo_add_before_remove_loses_entry_witness :
+    let ops : List Op := sameValueOps ++ [.rollback 3]
+    let bad := runAddBeforeRemove s0 ops
+    let good := run s0 ops
+    let q := fun (s : State) => (s.tables 0).map fun T =>
+        ([scanAnswer T .all, select T (.eq 0 1), select T (.eq 0 2), select T (.ge 1 4), select T (.le 1 5)], T.hashE.length, T.btreeE.length)
+    let c1 : List Op := sameValueSetup ++ [.txUpdate 3 0 (.idEq 1) [(0, 2), (1, 6)], .rollback 3]
+    let c2 : List Op := sameValueSetup ++ [.txUpdate 3 0 (.idEq 1) [(0, 2)], .txUpdate 3 0 (.idEq 1) [(0, 1)], .rollback 3]
+    let c3 : List Op := sameValueOps ++ [.commit 3]
+    runResAddBeforeRemove s0 ops = runRes s0 ops ∧ (runRes s0 ops).getLast? = some .ok ∧
+    (bad.tables 0).map (scanAnswer · .all) = some [(0, [1, 3, 100]), (1, [1, 5, 200]), (2, [2, 7, 300])] ∧
+    (bad.tables 0).map (scanAnswer · (.eq 0 1)) = some [(0, [1, 3, 100]), (1, [1, 5, 200])] ∧
+    (bad.tables 0).map (select · (.eq 0 1)) = some [(0, [1, 3, 100])] ∧
+    (bad.tables 0).map (scanAnswer · (.ge 1 4)) = some [(1, [1, 5, 200]), (2, [2, 7, 300])] ∧
+    (bad.tables 0).map (select · (.ge 1 4)) = some [(2, [2, 7, 300])] ∧
+    (bad.tables 0).map (select · (.le 1 5)) = some [(0, [1, 3, 100])] ∧
+    (good.tables 0).map (select · (.eq 0 1)) = some [(0, [1, 3, 100]), (1, [1, 5, 200])] ∧
+    (good.tables 0).map (select · (.ge 1 4)) = some [(1, [1, 5, 200]), (2, [2, 7, 300])] ∧
+    (good.tables 0).map (select · (.le 1 5)) = some [(0, [1, 3, 100]), (1, [1, 5, 200])] ∧
+    -- controls, swapped order: value-changing update; a→b then b→a; same-value update then commit
+    q (runAddBeforeRemove s0 c1) = q (run s0 c1) ∧ q (runAddBeforeRemove s0 c2) = q (run s0 c2) ∧
+    q (runAddBeforeRemove s0 c3) = q (run s0 c3) ∧
+    q (run s0 c1) = some ([[(0, [1, 3, 100]), (1, [1, 5, 200]), (2, [2, 7, 300])], [(0, [1, 3, 100]), (1, [1, 5, 200])],
+                            [(2, [2, 7, 300])], [(1, [1, 5, 200]), (2, [2, 7, 300])], [(0, [1, 3, 100]), (1, [1, 5, 200])]], 3, 3) := by
+  intro ops bad good q c1 c2 c3
+  and_intros <;> decide
+
 /-- REGRESSION WITNESS on the code before dcf916e8 (`runOld`): `rollback_restores` was false even
     without timeouts and DDL.  A inserts a row (no lock was taken), B deletes that uncommitted
     row, A rolls back (`slab.delete` on the already dead row reports nothing), B rolls back
